@@ -80,8 +80,8 @@ class ZSeq(SymVal):
 
     def sym_eq(self, other):
         o = coerce(other, self.kind)
-        if o is None:
-            return False
+        if o is None or getattr(o, "kind", self.kind) != self.kind:
+            return L.unlike("bytes" if self.kind == "bytes" else "str", other)
         return self.t == o.t
 
     def sym_subscript(self, ctx, idx):
@@ -117,8 +117,11 @@ class ZSeq(SymVal):
     def sym_binop(self, ctx, op, other, reflected):
         if isinstance(op, ast.Add):
             o = coerce(other, self.kind)
-            if o is None:
-                raise PyRaise(TypeError, "concat")
+            if o is None or o.kind != self.kind:
+                fam = L.family(other)
+                if fam is not None and fam != ("bytes" if self.kind == "bytes" else "str"):
+                    raise PyRaise(TypeError, "concat")
+                raise Undecided("concatenation with a value of another representation")
             a, b = (o, self) if reflected else (self, o)
             ln = None if a.len_expr is None or b.len_expr is None else a.len_expr + b.len_expr
             parts = None if a.parts is None or b.parts is None else a.parts + b.parts
@@ -145,9 +148,14 @@ class ZSeq(SymVal):
             def f(other, *rest):
                 if rest:
                     raise Undecided(name + " with start/end")
+                if isinstance(simplify_native(other), tuple):
+                    alts = [f(x) for x in other]
+                    return L.lor(*alts) if alts else False
                 o = coerce(other, self.kind)
-                if o is None:
-                    raise PyRaise(TypeError, name)
+                if o is None or o.kind != self.kind:
+                    if L.family(other) in ("bytes", "str") and L.family(other) != ("bytes" if self.kind == "bytes" else "str"):
+                        raise PyRaise(TypeError, name)
+                    raise Undecided(name + " with an argument of unknown representation")
                 return z3.PrefixOf(o.t, self.t) if name == "startswith" else z3.SuffixOf(o.t, self.t)
             return f
         h = ctx.opts.get("zseq_attr")
@@ -172,14 +180,14 @@ class ZChar(SymVal):
                 return self.code.sym_eq(ord(other)) if len(other) == 1 else False
             if isinstance(other, ZChar):
                 return self.code.sym_eq(other.code)
-            return False
+            return L.unlike("str", other)
         if isinstance(other, str):
             if len(other) != 1:
                 return False
             return self.code == ord(other)
         if isinstance(other, ZChar):
             return self.code == other.code
-        return False
+        return L.unlike("str", other)
 
     def sym_compare(self, ctx, op, other, reflected):
         if isinstance(op, (ast.Eq, ast.NotEq)):
@@ -214,7 +222,7 @@ class ZChar(SymVal):
 def coerce(x, kind):
     x = simplify_native(x)
     if isinstance(x, ZSeq):
-        return x
+        return x            # (callers compare .kind: a str sequence never equals / concatenates with a bytes one)
     if isinstance(x, ZChar):
         return ZSeq(z3.Unit(x.code), "str")
     if isinstance(x, str) and kind == "str":
@@ -343,7 +351,7 @@ class CStr(SymVal):
         if isinstance(o, str):
             o = CStr.of(o)
         if not isinstance(o, CStr):
-            return False
+            return L.unlike("str", other)
         if len(o.codes) != len(self.codes):
             return False
         return land(*[_ceq(a, b) for a, b in zip(self.codes, o.codes)])
